@@ -53,6 +53,35 @@ def confirm(wt, name, seed_id, pid):
     print("CONFIRMED ->", dst)
     return 0
 
+def try_scratch(seed_id, pids):
+    """Same as try, but on a scratch worktree of /repo with its own work directory (does not touch /repo)."""
+    d = os.path.join(VERIF, "seeded", seed_id)
+    meta = json.load(open(os.path.join(d, "meta.json")))
+    pids = pids or [meta["breaks_property"]]
+    wt = "/tmp/seedtry_" + seed_id
+    work = "/tmp/seedwork_" + seed_id
+    sh("git -C /repo worktree remove --force " + wt)
+    rc, out = sh("git -C /repo worktree add -q --detach %s HEAD" % wt)
+    if rc: print(out); return 2
+    try:
+        rc, out = sh("git apply " + os.path.join(d, "patch.diff"), cwd=wt)
+        if rc: print("patch does not apply:", out); return 2
+        for pid in pids:
+            t0 = time.time()
+            rc, out = sh("KONST_REPO=%s VERIF_WORK=%s ./check %s --tier quick" % (wt, work, pid), cwd=VERIF, timeout=7200)
+            vio = [l for l in out.splitlines() if l.startswith("VIOLATION")]
+            first = [l for l in out.splitlines() if "first violation" in l]
+            print("%s on %s: rc=%d %s (%.0fs)" % (pid, seed_id, rc, "DETECTED" if rc == 1 and vio else "MISSED" if rc == 0 else "TOOL-ERROR", time.time() - t0), flush=True)
+            if first: print("   ", first[0][:300], flush=True)
+            if rc == 2: print(out[-1500:])
+            meta["detected_by"][pid] = {"rc": rc, "detected": rc == 1 and bool(vio), "first": (first[0][:400] if first else ""),
+                                        "when": time.strftime("%Y-%m-%d %H:%M"), "mode": "scratch worktree"}
+    finally:
+        sh("git -C /repo worktree remove --force " + wt)
+        shutil.rmtree(work, ignore_errors=True)
+    json.dump(meta, open(os.path.join(d, "meta.json"), "w"), indent=1)
+    return 0
+
 def try_seed(seed_id, pids):
     d = os.path.join(VERIF, "seeded", seed_id)
     meta = json.load(open(os.path.join(d, "meta.json")))
@@ -80,3 +109,4 @@ def try_seed(seed_id, pids):
 if __name__ == "__main__":
     if sys.argv[1] == "confirm": sys.exit(confirm(*sys.argv[2:6]))
     if sys.argv[1] == "try": sys.exit(try_seed(sys.argv[2], sys.argv[3:]))
+    if sys.argv[1] == "scratch": sys.exit(try_scratch(sys.argv[2], sys.argv[3:]))
